@@ -941,10 +941,17 @@ def rule_py_no_alias(out):
                   "value without being copied (bytes/bytearray/str/tobytes/copy)", 2)
     tree, rel = parse_py(out, "_binary.py")
     count = 0
+    units = []  # every function that can hold a view: methods of the other classes and module-level functions
     for cname, cls in classes(tree).items():
         if cname == "CodedInputStream":
             continue
         for mname, fn in methods(cls).items():
+            units.append((cname, mname, fn))
+    for n in tree.body:
+        if isinstance(n, (ast.FunctionDef, ast.AsyncFunctionDef)):
+            units.append(("<module>", n.name, n))
+    if True:
+        for cname, mname, fn in units:
             views = set()
             for n in ast.walk(fn):
                 if isinstance(n, ast.Assign) and isinstance(n.value, ast.Call) and isinstance(n.value.func, ast.Attribute) and n.value.func.attr == "read_view":
